@@ -13,13 +13,14 @@ TABLES = drv("tables", ["props/tables.cpp"])
 SPKI = drv("spki", ["props/spki.cpp"])
 IPCONV = drv("ipconv", ["props/ipconv.cpp"])
 ENUMNAMES = drv("enumnames", ["props/enumnames.cpp"])
+BGPSEC = drv("bgpsec", ["props/bgpsec.cpp"], deps=["model/rfc8205.hpp"])
 WRAPS = " -Wl,--wrap=lrtr_get_monotonic_time,--wrap=sleep,--wrap=lrtr_dbg"
 CONV = drv("conv", ["props/conv.cpp", "engine/convsim.cpp"], ldflags="-lrapidcheck" + WRAPS,
            deps=["engine/convsim.hpp", "engine/convsim_model.inc", "engine/convsim_mock.inc", "engine/convsim_run.inc", "engine/judge.hpp",
                  "engine/cache.hpp", "engine/script.hpp", "engine/wire.hpp"])
 
 ENGINES = [
-    {"name": "rapidcheck-drivers", "path": "props/", "serves_properties": ["C01", "C02", "C09", "C10", "C19", "C20"],
+    {"name": "rapidcheck-drivers", "path": "props/", "serves_properties": ["C01", "C02", "C09", "C10", "C11", "C12", "C19", "C20"],
      "kind_free_text": "C++17 rapidcheck drivers linked against rtrlib built from the working tree (ASan+UBSan subset, asserts on); model-based / stateful"},
 ]
 
@@ -228,5 +229,37 @@ CHECKS = {
         "stages": [{"driver": CONV,
                     "quick": {"procs": 8, "rc": (500, 100)},
                     "thorough": {"procs": 16, "rc": (15000, 100), "timeout": 7200}}],
+    },
+    "C11": {
+        "level": "exploration",
+        "rule": "rapidcheck generates BGPsec updates: 1..8 hops (thorough: up to 40) with arbitrary pCount/flags, AS numbers from a pool incl. 0 and 2^32-1, P-256 keys from a pool of 6 "
+                "(SKIs shared between keys), IPv4 NLRI of every length 0..32 and IPv6 0..128 with random bits, per-hop key-table shapes (right key under the right AS; plus decoys and garbage under the same SKI; "
+                "right key only under another AS; garbage only; no key; right key under two AS numbers), optionally one single-bit corruption of a signed field (target AS, pCount, flags, AS, AFI, SAFI, NLRI length/bits, SKI, signature), "
+                "a segment-count mismatch, an unsupported suite or AFI. Every hop is signed by the harness over the RFC 8205 section 4.2 octets built from the harness's own path representation (model/rfc8205.hpp, EVP_DigestSign). "
+                "Oracle: VALID iff for every hop some table key with the hop's SKI AND AS verifies (EVP_DigestVerify); the four specific codes where the property names them. "
+                "non-trivial = >=3 hops, or IPv6, or NLRI length not a multiple of 8, or >=2 keys under one SKI; distinct by hash of the case.",
+        "assumptions": ["OpenSSL's ECDSA/SHA-256 primitive is shared with the library (only the primitive: digest layout, key selection and hop iteration are independent)",
+                        "keys and signatures are regenerated on replay (ECDSA is randomised); the verdict is a function of the case structure"],
+        "floor": {"quick": 300, "thorough": 3000},
+        "technique": "differential property testing (rapidcheck) against an independent RFC 8205 digest + EVP verification; metamorphic single-bit corruption",
+        "level_text": "Sampled exploration over path shapes, NLRI lengths, key-table shapes and single-bit corruptions with an independent reference implementation as oracle.",
+        "level_note": "Shares only OpenSSL's primitive with the library. Paths up to 8 hops in the quick tier, 40 in the thorough tier.",
+        "stages": [{"driver": BGPSEC,
+                    "quick": {"procs": 8, "rc": (2500, 100)},
+                    "thorough": {"procs": 16, "rc": (20000, 100), "timeout": 7200}}],
+    },
+    "C12": {
+        "level": "exploration",
+        "rule": "same generators as C11, but each hop is signed by rtr_bgpsec_generate_signature with the hop's DER private key (originations and forwardings, hop by hop); optionally the last hop gets a damaged key (truncated / one bit flipped), "
+                "a wrong segment count, an unsupported suite or AFI. Oracle: the returned segment is one well-formed DER ECDSA signature of <= 72 bytes, it verifies over the independently built RFC 8205 octets under the matching public key (EVP_DigestVerify), "
+                "and the path built from all generated signatures validates VALID; error cases give LOAD_PRIV_KEY_ERROR / UNSUPPORTED_ALGORITHM_SUITE / UNSUPPORTED_AFI / WRONG_SEGMENT_COUNT. non-trivial as C11.",
+        "assumptions": ["as C11", "a bit flip that leaves a key OpenSSL still loads and validates is not an 'unloadable key'"],
+        "floor": {"quick": 300, "thorough": 3000},
+        "technique": "differential property testing (rapidcheck): library signatures verified by an independent RFC 8205 implementation",
+        "level_text": "Sampled exploration; each generated signature is checked by a second implementation of the digest, so a self-consistent but non-interoperable layout is visible.",
+        "level_note": "Shares only OpenSSL's primitive with the library.",
+        "stages": [{"driver": BGPSEC,
+                    "quick": {"procs": 8, "rc": (1500, 100)},
+                    "thorough": {"procs": 16, "rc": (12000, 100), "timeout": 7200}}],
     },
 }
